@@ -1,0 +1,29 @@
+//go:build verif
+// +build verif
+
+package vm
+
+// Verification hook H7: per-step and per-frame observation points of the
+// interpreter (the repository's own tracer calls are commented out).
+var (
+	VerifStepHook  func(depth int, pc uint64, op byte, gas uint64, stackLen int, memLen int, readOnly bool)
+	VerifFrameHook func(enter bool, depth int, gas uint64, memLen int, err error)
+)
+
+func verifStep(in *EVMInterpreter, contract *Contract, pc uint64, op OpCode, stack *Stack, mem *Memory) {
+	if h := VerifStepHook; h != nil {
+		h(in.evm.depth, pc, byte(op), contract.Gas, stack.len(), mem.Len(), in.readOnly)
+	}
+}
+
+func verifFrameEnter(in *EVMInterpreter, contract *Contract) {
+	if h := VerifFrameHook; h != nil {
+		h(true, in.evm.depth, contract.Gas, 0, nil)
+	}
+}
+
+func verifFrameExit(in *EVMInterpreter, contract *Contract, mem *Memory, err *error) {
+	if h := VerifFrameHook; h != nil {
+		h(false, in.evm.depth, contract.Gas, mem.Len(), *err)
+	}
+}
